@@ -228,6 +228,13 @@ def rule_insert_table(an, res, prop):
                 cls = actual_class(effs)
                 want = expected_insert_classes(cm, present, upd, ins, exp)
                 val = ' '.join(seg.valuation())
+                if prop == 'C09' and cm.name in TTL_CACHES:
+                    strict = [c for c in seg.conds if c[0] == 'EXPIRED_STRICT' and isinstance(c[1][0], Ent) and c[1][0].kind == 'FOUND']
+                    res.ob('R-EXPIRED-INCLUSIVE', ok=not strict)
+                    if strict:
+                        V(res, prop, 'R-EXPIRED-INCLUSIVE', cm, b.where, 'entry at its exact expiry instant is treated as live by insert', strict[0][3],
+                          'insert decides on `%s`; an entry is live only while now < expire_time, so at now == expire_time allow::insert must '
+                          'succeed (the lookup side already reports the key absent)' % show(strict[0][4]))
                 if not want:
                     res.count('paths_pruned_infeasible')      # allow always has at least one bit set
                     continue
